@@ -54,7 +54,7 @@ pub open spec fn entry_e(e: Expr, pre: Compiler, post: Compiler) -> LogEntry { L
 pub open spec fn entry_s(st: Stmt, pre: Compiler, post: Compiler) -> LogEntry { LogEntry { what: LogWhat::S(st), start: pre.instructions@.len() as int, end: post.instructions@.len() as int, depth: sym_depth(pre.symbols), contexts: sym_contexts(pre.symbols) } }
 
 // the real fields + GHOST field `log` (not in the real struct, never constructed by extracted code): see LogEntry
-//@TYPE file=compiler.rs name=Compiler extra="pub log: Ghost<Seq<LogEntry>>, pub height: Ghost<H>, pub loop_h: Ghost<Seq<H>>,"
+//@TYPE file=compiler.rs name=Compiler extra="pub log: Ghost<Seq<LogEntry>>, pub height: Ghost<H>, pub loop_h: Ghost<Seq<H>>, pub locals_bound: Ghost<int>,"
 
 /// state invariant of code generation (requires AND ensures of every generator): the peephole invariant
 pub open spec fn gen_inv(c: Compiler) -> bool {
@@ -63,6 +63,9 @@ pub open spec fn gen_inv(c: Compiler) -> bool {
     && (c.last_instruction == Some(OpCode::ReturnValue) ==> c.height@ is Dead)
     // static heights count values of the current flow's operand area: never negative
     && hcovers(c.height@, 0)
+    // O02.slot: every local-slot operand emitted so far in the function being compiled (ghost: one more than the
+    // largest) lies below the size its context reports - which is the slot count Call reserves for the function
+    && 0 <= c.locals_bound@ <= sym_max_size(c.symbols)
 }
 
 /// the pending-`stop` list of loop context i, as positions
@@ -98,6 +101,9 @@ pub open spec fn gen_post(pre: Compiler, post: Compiler, ok: bool) -> bool {
         })
     &&& pre.constants@.len() <= post.constants@.len()
     &&& (forall|i: int| 0 <= i < pre.constants@.len() ==> post.constants@[i] == pre.constants@[i])
+    // the reported size of the current context only grows; the ghost bound of emitted local slots never shrinks
+    &&& sym_max_size(post.symbols) >= sym_max_size(pre.symbols)
+    &&& post.locals_bound@ >= pre.locals_bound@
     // GHOST: the static height every enclosing loop expects at its exit / at its start label (one entry per loop context)
     &&& post.loop_h@ == pre.loop_h@
     &&& (ok ==> sym_depth(post.symbols) == sym_depth(pre.symbols) && sym_contexts(post.symbols) == sym_contexts(pre.symbols) && sym_outer(post.symbols) == sym_outer(pre.symbols) && sym_outer_sizes(post.symbols) == sym_outer_sizes(pre.symbols))
@@ -156,7 +162,7 @@ pub open spec fn block_value_post(pre: Compiler, post: Compiler, stmts: Seq<Stmt
 pub open spec fn le16(v: int) -> Seq<u8> { seq![(v % 256) as u8, (v / 256) as u8] }
 /// frame condition of the emit helpers: only the code buffer (and last_instruction for emit_opcode) changes
 pub open spec fn same_but_code(a: Compiler, b: Compiler) -> bool {
-    a.symbols == b.symbols && a.constants == b.constants && a.loop_contexts == b.loop_contexts && a.log@ == b.log@ && a.loop_h@ == b.loop_h@
+    a.symbols == b.symbols && a.constants == b.constants && a.loop_contexts == b.loop_contexts && a.log@ == b.log@ && a.loop_h@ == b.loop_h@ && a.locals_bound@ == b.locals_bound@
 }
 pub open spec fn is_prefix(a: Seq<u8>, b: Seq<u8>) -> bool { a.len() <= b.len() && forall|k: int| 0 <= k < a.len() ==> #[trigger] b[k] == a[k] }
 /// global invariant of the code buffer that the last-instruction peepholes rely on: if the last opcode emitted is
@@ -208,7 +214,7 @@ impl Compiler {
             old(self).constants@.len() <= final(self).constants@.len(),
             forall|i: int| 0 <= i < old(self).constants@.len() ==> final(self).constants@[i] == old(self).constants@[i],
             final(self).instructions == old(self).instructions, final(self).last_instruction == old(self).last_instruction,
-            final(self).symbols == old(self).symbols, final(self).loop_contexts == old(self).loop_contexts, final(self).log@ == old(self).log@, final(self).height@ == old(self).height@, final(self).loop_h@ == old(self).loop_h@,
+            final(self).symbols == old(self).symbols, final(self).loop_contexts == old(self).loop_contexts, final(self).log@ == old(self).log@, final(self).height@ == old(self).height@, final(self).loop_h@ == old(self).loop_h@, final(self).locals_bound@ == old(self).locals_bound@,
             // DERIVED (code buffer, last_instruction and loop contexts are unchanged)
             gen_inv(*old(self)) ==> gen_inv(*final(self)),
     { unimplemented!() }
